@@ -1,6 +1,6 @@
 (* C07 — zone selection and RCODEs for unsupported queries. *)
 From QV Require Import Base.ListX Model.NameWire Model.Reader Model.RdataLite Model.Server Proofs.ServerP
-  Spec.NameWireS Spec.NameRepr Spec.ReaderS Model.CatTree Proofs.CatTreeCatP Model.ServerCat Proofs.ServerCatP.
+  Spec.NameWireS Spec.NameRepr Spec.ReaderS Model.CatTree Spec.CatTreeS Proofs.CatTreeCatP Model.ServerCat Proofs.ServerCatP.
 
 (* A request that passes the generic pre-processing is dispatched on its opcode:
    anything but QUERY gets NOTIMP, regardless of the catalog, and carries no data. *)
@@ -79,6 +79,20 @@ Theorem c07_srv_entry_fields : forall e,
   Server.e_kind (srv_entry e) = CatTree.e_val e.
 Proof. exact srv_entry_fields. Qed.
 
+(* The link is not specific to the tree: for ANY catalog implementation refining C22's flat reference map
+   ([m] stores every entry at its own key, [l] lists exactly its entries) the server model's lookup on the
+   flat view of the listing is the specification's longest-suffix lookup ... *)
+Theorem c07_catalog_refinement_link : forall (m : refmap tentry) (l : list tentry) cls q r,
+  rm_consistent CatTree.e_name CatTree.e_class m -> rm_is_iter CatTree.e_name CatTree.e_class m l ->
+  rm_is_lookup m cls q r ->
+  Server.cat_lookup (map srv_entry l) q cls None = option_map srv_entry r.
+Proof. exact flat_lookup_refmap. Qed.
+
+(* ... in particular for SingleZoneCatalog (src/db/single_zone_catalog.rs) *)
+Theorem c07_single_zone_link : forall (e : tentry) nm cls,
+  Server.cat_lookup [srv_entry e] (lower_name nm) cls None = option_map srv_entry (single_lookup e nm cls).
+Proof. exact single_lookup_flat. Qed.
+
 (* loading a configuration (Catalog::insert of every entry in order; an equal (class, name) replaces)
    never panics and yields a well-formed tree *)
 Theorem c07_tree_of_entries_ok : forall es, exists c, tree_of_entries es = Ok c /\ wf_cat c.
@@ -147,3 +161,5 @@ Print Assumptions c07_srv_entry_fields.
 Print Assumptions c07_tree_of_entries_ok.
 Print Assumptions c07_query_table_tree.
 Print Assumptions c07_clean_query_tree.
+Print Assumptions c07_catalog_refinement_link.
+Print Assumptions c07_single_zone_link.
